@@ -269,6 +269,7 @@ def run(ctx):
     # the parsers themselves, translated from dec.c by the K+cursor translator: every read inside the buffer, every copy fits
     if g_unpack.generate(ctx):
         leanlib.check_props(ctx, "C08Unpack")
+        leanlib.check_props(ctx, "UnpackRef")
     leanlib.check_props(ctx, "C08")
     drv = leanlib.driver(ctx)
     htoy = cc.build_toy(ctx)
